@@ -21,6 +21,11 @@ def events(seed, ncfg, nper):
     cfgs = [(1.0, 6.0, 12.0), (2.0, 6.0, 12.0), (4.0, 6.0, 12.0), (0.0, 7.0, 9.0), (np.nextafter(1.0, 2), 6.0, 12.0),
             (np.nextafter(1.0, 0), 6.0, 12.0), (1.5, 6.0, 12.0), (2.2, 6.0, 12.0), (3.0, 7.5, 12.0), (0.5, 6.0, 7.5), (4.0, 6.0, 6.001),
             (1.0, 11.0, 12.0), (1.0000001, 6.0, 12.0), (0.999, 6.0, 12.0)]
+    # ranges down to one ulp wide, with indices at and around 1 ("all bounds 6 <= lower < upper <= 12")
+    for p0 in (0.999, 1.0, 1.0 + 1e-12, 1.0005, 2.0, 0.0, 4.0, float(np.nextafter(1.0, 0))):
+        for lo0, w in ((11.0, 1e-14), (7.0, 1e-9), (6.0, 0.0), (9.0, 1e-12), (12.0 - 1e-6, 1e-6)):
+            hi0 = float(np.nextafter(lo0, 13.0)) if w == 0.0 else min(12.0, lo0 + w)
+            cfgs.append((p0, lo0, hi0))
     for _ in range(ncfg):
         lo = float(rng.uniform(6.0, 11.5))
         cfgs.append((float(rng.uniform(0.0, 4.0)), lo, float(rng.uniform(lo + 1e-3, 12.0))))
